@@ -6,6 +6,9 @@
 //! (`mean`, `acf`, `toeplitz`), calls the crate's public `invert_matrix` on it and puts (argument bits, result bits)
 //! into the case; `Corr/C13.v` instantiates the model's `inv` parameter by that one-entry table (the model's
 //! argument must be bit-equal to the recorded one; a miss is a disagreement).
+//!
+//! End-to-end family (`CFitE`, `CFitPredictE`): the same fits WITHOUT any record; the Coq side computes the inner
+//! solve with C01's executable model of `invert_matrix` (Model/SolveInst.v), so `AR::fit` is reproduced whole.
 use crate::util::*;
 use compute::linalg::{invert_matrix, toeplitz};
 use compute::statistics::mean;
@@ -85,6 +88,16 @@ fn push_fit(cs: &mut Cases, p: usize, data: &[f64], tag: &str) -> Result<Vec<f64
     let nt = data.len() >= 3 && data.iter().any(|v| *v != data[0]);
     cs.push(app("CFit", vec![Tm::Nat(p as u64), fl(data), fl(&arg), outcome_list(&res), outcome_list(&e)]),
             &format!("fit/{}{}", tag, if e.is_err() { "/panic" } else { "" }), nt);
+    // end to end: no record; the Coq side computes the inner solve with C01's executable model of invert_matrix
+    cs.push(app("CFitE", vec![Tm::Nat(p as u64), fl(data), outcome_list(&e)]),
+            &format!("e2e-fit/{}{}", tag, if e.is_err() { "/panic" } else { "" }), nt);
+    if data.len() <= 200 {
+        // the pipeline AR::new(p) -> fit(data) -> predict(data, h), end to end
+        let h = 1 + (data.len() % 7);
+        let f = catch(|| { let mut ar = AR::new(p); ar.fit(data); ar.predict(data, h) });
+        cs.push(app("CFitPredictE", vec![Tm::Nat(p as u64), fl(data), Tm::Nat(h as u64), outcome_list(&f)]),
+                &format!("e2e-fit-predict/{}{}", tag, if f.is_err() { "/panic" } else { "" }), nt);
+    }
     e
 }
 
@@ -213,7 +226,7 @@ pub fn gen(tier: &str, seed: u64, outdir: &str) {
             push_predict(&mut cs, &co, 1e6, &x, 1000, "horizon1000"); }
     }
     cs.write(outdir, if thorough { 50 } else { 100 },
-             "acovf/acf on every length 0..=40 x lags {0,+-1,2,-3,+-(n-1),+-n,n+1,+-50,random}, on the property's series families (AR(1..6) simulations, trends, constant+noise, offsets to 1e6, dyadic grid; lengths 10..5000) with lags -50..50, on special values (+-0, +-inf, NaN, subnormals, constant series, lags i32::MAX / i32::MIN+1); difference on every length 0..=20 (empty panics); AR::new(p).fit for p = 0 (panic) and 1..9 on the families, on short data (length <= p) and on degenerate data, with the inner invert_matrix call recorded (argument bits, result bits or panic); predict / predict_one on the fitted states (horizons 1..1000) and on hand-made states of order 0..17 with history lengths around p (short histories: predict panics, predict_one takes its short branch) and special values; non-trivial = length >= 3 and non-constant data (lag inside the series; horizon >= 2 for predict; order >= 2 for predict_one); distinct by hash of the case term");
+             "acovf/acf on every length 0..=40 x lags {0,+-1,2,-3,+-(n-1),+-n,n+1,+-50,random}, on the property's series families (AR(1..6) simulations, trends, constant+noise, offsets to 1e6, dyadic grid; lengths 10..5000) with lags -50..50, on special values (+-0, +-inf, NaN, subnormals, constant series, lags i32::MAX / i32::MIN+1); difference on every length 0..=20 (empty panics); AR::new(p).fit for p = 0 (panic) and 1..9 on the families, on short data (length <= p) and on degenerate data, with the inner invert_matrix call recorded (argument bits, result bits or panic), and every one of these fits ALSO end to end (tags e2e-*: no record, the inner solve computed inside Coq by C01's executable model of invert_matrix; for series up to 200 points also the pipeline fit -> predict(data, h)); predict / predict_one on the fitted states (horizons 1..1000) and on hand-made states of order 0..17 with history lengths around p (short histories: predict panics, predict_one takes its short branch) and special values; non-trivial = length >= 3 and non-constant data (lag inside the series; horizon >= 2 for predict; order >= 2 for predict_one); distinct by hash of the case term");
 }
 
 // ---------------------------------------------------------------------------------------------
@@ -370,6 +383,40 @@ pub fn oracle(tier: &str, seed: u64) -> (u64, Vec<Finding>) {
                 }
             }
         } else if fc.is_err() { add(&mut out, "forecast:panics", "predict panicked with a history at least as long as the order".into(), input.clone()); }
+        // ---- forecasting from a history that is NOT the training series (an extended / different record): the model is
+        //      intercept + coefficients, so the forecast is still intercept + AR recursion on (history - intercept)
+        if phi.iter().all(|v| v.is_finite()) && n >= p && p >= 1 {
+            let extra = 1 + r.below(6) as usize;
+            let lvl = m + *r.pick(&[0.0, 1.0, -2.0, 5.0]) * (g0.sqrt() + 1e-3 * scale);
+            let mut hist: Vec<f64> = x[n / 2..].to_vec();
+            for j in 0..extra { hist.push(lvl + (g0.sqrt() + 1e-3 * scale) * ((j as f64 * 1.7 + it as f64).sin())); }
+            if hist.len() >= p {
+                let hh = 1 + r.below(12) as usize;
+                let input3 = format!("{} then predict(history={}, horizon={})", input, json_floats(&hist), hh);
+                crumb(&input3); tried += 1;
+                if let Ok(fc) = catch(|| ar.predict(&hist, hh)) {
+                    let mu = ar.intercept; let nh = hist.len();
+                    let hs = hist.iter().fold(scale, |a, v| a.max(v.abs()));
+                    let mut w: Vec<f64> = hist[nh - p..].iter().map(|v| v - mu).collect();
+                    let mut err: Vec<f64> = w.iter().map(|v| EPS * (v.abs() + mu.abs())).collect();
+                    for (sidx, got) in fc.iter().enumerate() {
+                        let t = w.len();
+                        let z = csum((0..p).map(|i| phi[i] * w[t - 1 - i]));
+                        let za: f64 = (0..p).map(|i| phi[i].abs() * w[t - 1 - i].abs()).sum();
+                        let e: f64 = (0..p).map(|i| phi[i].abs() * err[t - 1 - i]).sum::<f64>() + (p as f64 + 4.0) * EPS * (za + mu.abs()) * 2.0;
+                        if !e.is_finite() || e > 1e-3 * hs { break; }
+                        if !((got - (mu + z)).abs() <= 4.0 * e + 1e-300) {
+                            add(&mut out, "forecast:not-centred-recursion", format!("forecast {} from a history other than the training series = {:e}, intercept + AR recursion on (history - intercept) = {:e} (bound {:e}); intercept {:e}, phi = {:?}", sidx + 1, got, mu + z, 4.0 * e, mu, phi), input3.clone());
+                            break;
+                        }
+                        w.push(z); err.push(e);
+                    }
+                    if let Ok(f1) = catch(|| ar.predict_one(&hist)) {
+                        if !fc.is_empty() && !((f1 - fc[0]).abs() <= 1e-9 * hs) { add(&mut out, "forecast:predict_one-differs-from-predict", format!("predict_one(history) = {:e} but predict(history, 1)[0] = {:e}", f1, fc[0]), input3.clone()); }
+                    }
+                } else { add(&mut out, "forecast:panics", "predict panicked with a history at least as long as the order".into(), input3.clone()); }
+            }
+        }
         // ---- two-run relation: adding a constant c to the series leaves the coefficients and adds c to every forecast
         if well {
             let c = if fam == "ar-dyadic" { r.range(-4096, 4096) as f64 } else { *r.pick(&[1.0, -7.5, 100.0, 1e3, -1e4, 1e6]) * r.uniform(0.5, 1.0) };
